@@ -27,3 +27,28 @@ Theorem C11_partitions_divisions_truthful : forall divs parts sel d',
   partitions_divisions divs sel = Some d' -> truthful d' (select_parts parts sel).
 Proof. exact partitions_truthful. Qed.
 Print Assumptions C11_partitions_divisions_truthful.
+
+(* T-SRC: the same statements about the method bodies translated from the current source (GeneratedSource.v) *)
+From DX Require Import PySeq GeneratedSource SourceChecks.
+Local Open Scope nat_scope.
+Theorem C11_src_partitions_truthful : forall divs parts (sel : list nat) d',
+  truthful divs parts -> (forall p, In p sel -> p < length parts) -> sel <> [] ->
+  src_Partitions_divisions divs (zs sel) = Known d' -> truthful d' (select_parts parts sel).
+Proof. exact src_partitions_truthful. Qed.
+Print Assumptions C11_src_partitions_truthful.
+
+Theorem C11_src_pushed_selection_is_selection : forall full (sel : list nat),
+  src_PartitionsFiltered_divisions full true (zs sel) = src_Partitions_divisions full (zs sel).
+Proof. intros. rewrite src_PartitionsFiltered_ok, src_Partitions_ok. reflexivity. Qed.
+Print Assumptions C11_src_pushed_selection_is_selection.
+
+Theorem C11_src_head_truthful : forall divs parts k nrows,
+  truthful divs parts -> k <= length parts ->
+  truthful (src_Head_divisions divs (Z.of_nat k)) (head_parts parts k nrows).
+Proof. exact src_head_truthful. Qed.
+Print Assumptions C11_src_head_truthful.
+
+Theorem C11_src_tail_truthful : forall divs parts nrows,
+  truthful divs parts -> parts <> [] -> truthful (src_Tail_divisions divs) (tail_parts parts nrows).
+Proof. exact src_tail_truthful. Qed.
+Print Assumptions C11_src_tail_truthful.
